@@ -116,7 +116,7 @@ func c15Judge(rules []*grl.Rule, cause error, tr *hx.Trace) (sig, what string, n
 }
 
 func C15(rep *ev.Reporter, tier string) {
-	bud := NewBudget(50 * time.Second)
+	bud := NewBudget(150 * time.Second)
 	if tier == "thorough" {
 		bud = NewBudget(9 * time.Minute)
 	}
